@@ -381,6 +381,98 @@ def check_hash(ctx, mod, cls, cname):
         ctx.holds("R3", construct, where(mod, fn), "hash is a function of self.vector only: %s" % text(rets[0].value))
 
 
+def r8_remove(ctx, repo):
+    """Archive.remove(x) takes out the member that IS x (the same design): list.remove / `==` / `is` on the individuals.
+    A member chosen because its COSTS equal those of x is another design whenever two designs reach the same costs"""
+    from ..paths import Enumerator
+    from ..astutil import calls_in, func_params
+    if not repo.has_cls("Archive"):
+        return
+    cls = repo.cls("Archive")
+    fn = cls.methods.get("remove")
+    C = "Archive.remove"
+    if fn is None:
+        return
+    mod = cls.module
+    ps = func_params(fn)
+    if len(ps) < 2:
+        ctx.inconclusive("R8", C, where(mod, fn), "signature not recognised")
+        return
+    sol = ps[1]
+    bad = None
+    n = ndel = 0
+    for p in Enumerator(loop_counts=(0, 1)).function_paths(fn):
+        if p.outcome == "raise":
+            continue
+        n += 1
+        by_cost = by_design = None
+        for e in p.events:
+            if e.kind == "guard" and e.val:
+                g = e.node
+                if isinstance(g, ast.Compare) and len(g.ops) == 1 and isinstance(g.ops[0], (ast.Eq, ast.Is)):
+                    l, r = text(g.left), text(g.comparators[0])
+                    if ("costs" in l and "costs" in r) and sol + "." in (l + r):
+                        by_cost = by_cost or g
+                    elif {access_path(g.left), access_path(g.comparators[0])} >= {sol} and "costs" not in l + r:
+                        by_design = by_design or g
+            if e.kind != "stmt":
+                continue
+            s_ = e.node
+            deletes = isinstance(s_, ast.Delete) or any(isinstance(c.func, ast.Attribute) and c.func.attr in ("pop", "remove") and "_contents" in (access_path(c.func.value) or "")
+                                                         for c in calls_in(s_))
+            direct = any(isinstance(c.func, ast.Attribute) and c.func.attr == "remove" and c.args and access_path(c.args[0]) == sol for c in calls_in(s_))
+            if deletes:
+                ndel += 1
+                if by_cost is not None and by_design is None and not direct:
+                    bad = bad or (s_, "a member is removed because its costs equal those of the argument (%s), without being the same design: another design that reaches the same objective "
+                                  "values is taken out of the archive and remove() reports success (path [%s])" % (text(by_cost), p.describe(5)))
+    # the decision delegated to a helper of the class: which of its paths answer "yes", and on what grounds
+    if not bad:
+        for c in calls_in(fn):
+            hn = (access_path(c.func) or "").split(".")[-1]
+            hf = cls.methods.get(hn)
+            if hf is None or hn == "remove" or sol not in [access_path(a) for a in c.args]:
+                continue
+            if hasattr(ctx, "examined"):
+                ctx.examined.add(hn)
+            hps = func_params(hf)
+            static = any(isinstance(d, ast.Name) and d.id in ("staticmethod",) for d in hf.decorator_list)
+            formal = (hps if static else hps[1:])
+            amap = {f_: access_path(a_) for f_, a_ in zip(formal, c.args)}
+            hsol = next((f_ for f_, a_ in amap.items() if a_ == sol), None)
+            if hsol is None:
+                continue
+            for hp in Enumerator(loop_counts=(0, 1)).function_paths(hf):
+                if hp.outcome != "return" or hp.node.value is None:
+                    continue
+                rv = hp.node.value
+                if isinstance(rv, ast.Constant) and rv.value is not True:
+                    continue
+                grounds_cost = grounds_design = None
+                for e in hp.events:
+                    if e.kind == "guard" and e.val and isinstance(e.node, ast.Compare) and len(e.node.ops) == 1 and isinstance(e.node.ops[0], (ast.Eq, ast.Is)):
+                        l, r = text(e.node.left), text(e.node.comparators[0])
+                        if "costs" in l and "costs" in r and hsol + "." in l + r:
+                            grounds_cost = grounds_cost or e.node
+                        elif hsol in (access_path(e.node.left), access_path(e.node.comparators[0])) and "costs" not in l + r:
+                            grounds_design = grounds_design or e.node
+                if not (isinstance(rv, ast.Constant) and rv.value is True):
+                    # return <expr>: design equality inside the returned expression
+                    if any(isinstance(x, ast.Compare) and hsol in (access_path(x.left), access_path(x.comparators[0])) and "costs" not in text(x) for x in ast.walk(rv)):
+                        grounds_design = grounds_design or rv
+                    elif any(isinstance(x, ast.Compare) and "costs" in text(x) for x in ast.walk(rv)):
+                        grounds_cost = grounds_cost or rv
+                if grounds_cost is not None and grounds_design is None:
+                    bad = bad or (c, "the member to remove is chosen by %s(), which answers yes when the COSTS are equal (%s) without the designs being the same: another design that reaches "
+                                  "the same objective values is taken out of the archive and remove() reports success" % (hn, text(grounds_cost)))
+    if bad:
+        ctx.violated("R8", C, where(mod, bad[0]), bad[1])
+    elif ndel == 0:
+        ctx.inconclusive("R8", C, where(mod, fn), "no removal found")
+    else:
+        ctx.holds("R8", C, where(mod, fn), "the removed member is selected by identity / design equality on every path (%d paths)" % n)
+
+
 def r7_generate(ctx, repo):
     """GeneticAlgorithm.generate: a child is looked up in the list of offspring and then inserted or skipped.  Between
     the look-up of a child and the decision about it nothing else may be inserted: a look-up made before the sibling
@@ -494,6 +586,8 @@ def run(ctx):
     c03.r2_truncate(SubCtx(ctx, "R6", prefix="de-duplication: "), repo)
     ctx.rule("R7", "offspring generation: every duplicate test is made against the offspring list as it is when the child is inserted")
     r7_generate(ctx, repo)
+    ctx.rule("R8", "Archive.remove takes out the same design, not a member with the same costs")
+    r8_remove(ctx, repo)
     # R5 evidence: relying sites
     sites = []
     for m in repo.modules.values():
